@@ -39,6 +39,15 @@ func straightScript(g *spec.Gen) *spec.Script {
 				// a negative hex literal (lexed as `-0` `x10`; emitted with the same characters)
 				c.Args = append(c.Args, &spec.Arg{Toks: []string{[]string{"-0x10", "-0x1F", "-0xab"}[g.R.IntN(3)]}})
 			}
+			// operator characters written without a blank between them (`/*`, `*+`, `%%`): each stays a token of
+			// its own (pairs that would form another token - `//`, `==`, `&&`, a signed number - are left alone)
+			for _, a := range c.Args {
+				for i := 1; i < len(a.Toks); i++ {
+					if strings.Contains("/ * + % @ ~ ? ^ .", a.Toks[i-1]) && len(a.Toks[i-1]) == 1 && strings.Contains("* + % @ ~ ? ^ .", a.Toks[i]) && len(a.Toks[i]) == 1 && a.Toks[i-1] != " " && a.Toks[i] != " " && g.R.IntN(2) == 0 {
+						a.Toks[i] = "\x01" + a.Toks[i]
+					}
+				}
+			}
 			s.Body.Stmts = append(s.Body.Stmts, &spec.CmdStmt{Cmd: c})
 		}
 	}
